@@ -413,12 +413,20 @@ def docs_depth(depth, width, keys=('a', 'b', 'c')):
                 out.append(tuple(zip(ks, combo)))
     return out
 
+# thorough tier: a heavy tail on the widths of random documents (set by check.py).  The scale families are
+# fixed; this lets the random stream, too, wander beyond widths of 4 now and then.
+HEAVY_TAIL = False
+WIDE_KEYS = tuple("k%02d" % i for i in range(40)) + ('\u00e9', 'a b', '', 'K00', 'k0', 'k')
+
 def rand_doc(rng, depth, keys=('a', 'b', 'c', 'd')):
     if depth <= 0 or rng.random() < 0.3:
         return rng.choice(SCAL)
+    wide = HEAVY_TAIL and rng.random() < 0.03
+    if wide:
+        keys = WIDE_KEYS
     r = rng.random()
     if r < 0.5:
-        n = rng.choice([0, 1, 2, 2, 3, 4])
+        n = rng.choice([5, 8, 9, 13, 17, 21, 33, 40]) if wide else rng.choice([0, 1, 2, 2, 3, 4])
         mode = rng.random()
         if mode < 0.4 and n > 0:      # homogeneous repetitions
             e = rand_doc(rng, depth - 1, keys)
@@ -443,9 +451,9 @@ def rand_doc(rng, depth, keys=('a', 'b', 'c', 'd')):
                 els.append(tuple(m))
             return els
         return [rand_doc(rng, depth - 1, keys) for _ in range(n)]
-    n = rng.choice([0, 1, 2, 2, 3])
+    n = rng.choice([5, 8, 9, 13, 17, 21, 33, 40]) if wide else rng.choice([0, 1, 2, 2, 3])
     ks = rng.sample(keys, min(n, len(keys)))
-    return tuple((k, rand_doc(rng, depth - 1, keys)) for k in ks)
+    return tuple((k, rand_doc(rng, depth - 1, ('a', 'b', 'c', 'd') if wide else keys)) for k in ks)
 
 def witnesses(s, cap=12):
     """candidate member documents of shape s (validated by the model's mem before use)"""
